@@ -2201,12 +2201,150 @@ def _rand_program_harness(prop, k, mac):
     return Harness(hn, harness_fn(hn, b), prog, note="random program #%d" % k)
 
 
+def _rand_async_program_harness(prop, k, mac):
+    """rand_diff for the async kinds: branches are futures (harness gates), operators are the future / try-future methods
+    they print as under `use futures::{FutureExt, TryFutureExt}`; the staged reference is written with the same methods
+    and `futures::join!` / `futures::try_join!` per step.  Value always; evaluation trace as a multiset for the
+    non-spawning kinds (a spawned task keeps running after a sibling failed, so the spawning kinds compare values only)."""
+    import random
+    rng = random.Random(104729 * k + 7 + sum(ord(c) for c in mac))
+    is_try = mac.startswith("try")
+    is_spawn = "spawn" in mac
+    n = rng.choice([1, 2, 2, 3])
+    ds = [rng.choice([1, 2, 2, 3]) for _ in range(n)]
+    names = [rng.choice([None, None, "let"]) for _ in range(n)]
+    VT = "Result<u8, u8>" if is_try else "u8"
+    b = ""
+    for i in range(n):
+        b += "    let a%d: u8 = kani::any();\n" % i
+
+    def op_pool(i, s, p):
+        c = "ev(code(K_CALL, %d, %d, %d));" % (i, s, p)
+        kk = K(i, s)
+        if is_try:
+            return [
+                ("map", "|> {B}", ".map({0})", "move |r: Result<u8, u8>| { %s r.map(|x: u8| x.wrapping_add(%d)) }" % (c, kk)),
+                ("and_then", "=> {B}", ".and_then({0})", "move |x: u8| { %s futures::future::ready(if x > 3 { Ok::<u8, u8>(x) } else { Err(x) }) }" % c),
+                ("or_else", "<= {B}", ".or_else({0})", "move |e: u8| { %s futures::future::ready(if e > 100 { Ok::<u8, u8>(e) } else { Err(e) }) }" % c),
+                ("map_err", "!> {B}", ".map_err({0})", "move |e: u8| { %s e.wrapping_add(1) }" % c),
+                ("inspect", "?? {B}", ".inspect({0})", "move |r: &Result<u8, u8>| { %s let _ = r; }" % c),
+            ]
+        return [
+            ("map", "|> {B}", ".map({0})", "move |x: u8| { %s x.wrapping_add(%d) }" % (c, kk)),
+            ("inspect", "?? {B}", ".inspect({0})", "move |x: &u8| { %s let _ = x; }" % c),
+            ("then", "-> {B}", "@call@{0}", "move |f| async move { let x: u8 = f.await; %s x.wrapping_mul(3) }" % c),
+        ]
+    brs = []
+    steps = {}
+    for i in range(n):
+        v0 = ("if a%d > 200 { Err::<u8, u8>(a%d) } else { Ok(a%d) }" % (i, i, i)) if is_try else "a%d" % i
+        g = "gate(0, code(K_POLL, %d, 0, 0), %s)" % (i, v0)
+        blk_init = rng.random() < 0.4
+        init = ("{ ev(code(K_CAP, %d, 0, 0)); %s }" % (i, g)) if blk_init else g
+        t = ("let n%d = " % i if names[i] else "") + init
+        steps.setdefault((0, i), []).append(("@init@", ("c_%d_0_0" % i, init if blk_init else None, init)))
+        for s in range(ds[i]):
+            nops = rng.choice([0, 1, 2]) if s == 0 else rng.choice([1, 1, 2])
+            for p in range(1, nops + 1):
+                pool = op_pool(i, s, p)
+                name, m, r, body = pool[rng.randrange(len(pool))]
+                var = "c_%d_%d_%d" % (i, s, p)
+                readers = [j for j in range(n) if names[j]]
+                if name == "map" and s >= 1 and readers and rng.random() < 0.5:
+                    j = rng.choice(readers)
+                    rd = "n%d.clone().unwrap_or(77)" % j if is_try else "n%d" % j
+                    if is_try:
+                        fn_ = "move |r: Result<u8, u8>| { ev(code(K_CALL, %d, %d, %d)); r.map(|x: u8| x.wrapping_add(snap)) }" % (i, s, p)
+                    else:
+                        fn_ = "move |x: u8| { ev(code(K_CALL, %d, %d, %d)); x.wrapping_add(snap) }" % (i, s, p)
+                    blk = "{ ev(code(K_CAP, %d, %d, %d)); let snap: u8 = %s; %s }" % (i, s, p, rd, fn_)
+                    ref = blk.replace("n%d" % j, "w%d" % j)
+                    operand = (var, blk, ref)
+                elif rng.random() < 0.5:
+                    blk = "{ ev(code(K_CAP, %d, %d, %d)); %s }" % (i, s, p, body)
+                    operand = (var, blk, blk)
+                else:
+                    operand = (var, None, body)
+                t += " %s%s" % ("~" if (p == 1 and s > 0) else "", m.replace("{B}", operand[1] if operand[1] is not None else operand[2]))
+                steps.setdefault((s, i), []).append((r, operand))
+        brs.append(t)
+    handler = rng.random() < 0.3
+    comb = " ^ ".join("x%d.rotate_left(%d)" % (i, i) for i in range(n))
+    if handler:
+        if is_try:
+            brs.append("map => move |%s| %s" % (", ".join("x%d: u8" % i for i in range(n)), comb))
+        else:
+            brs.append("then => move |%s| futures::future::ready(%s)" % (", ".join("x%d: u8" % i for i in range(n)), comb))
+    prog = "%s! { %s }" % (mac, ", ".join(brs))
+    if is_try:
+        rty = "Result<u8, u8>" if handler else "Result<%s, u8>" % tupty("u8", n)
+    else:
+        rty = "u8" if handler else tupty("u8", n)
+    runner = "block_on_tokio" if is_spawn else "futures::executor::block_on"
+    b += "    let r: %s = %s(async move { %s.await });\n" % (rty, runner, prog)
+    b += "    reference_mode();\n"
+    b += "    let exp: %s = futures::executor::block_on(async move {\n" % rty
+    b += "        use futures::{FutureExt, TryFutureExt};\n"
+    for i in range(n):
+        b += "        #[allow(unused_mut, unused_assignments, unused_variables)] let mut w%d: %s = %s;\n" % (i, VT, "Ok(0)" if is_try else "0")
+    for s in range(max(ds)):
+        act = [i for i in range(n) if ds[i] > s]
+        b += "        // step %d: block operands first, then one future per active branch, joined\n" % s
+        for i in act:
+            for (r, (var, blk, ref)) in steps.get((s, i), []):
+                if blk is not None:
+                    b += "        let %s = %s;\n" % (var, ref)
+        futs = []
+        for i in act:
+            cur = None
+            for (r, (var, blk, ref)) in steps.get((s, i), []):
+                if r == "@init@":
+                    cur = var if blk is not None else ref
+                    continue
+                if cur is None:
+                    cur = "async move { w%d }" % i
+                cur = _apply_ref(cur, r.replace("{0}", var if blk is not None else "(%s)" % ref))
+            if cur is None:
+                cur = "async move { w%d }" % i
+            b += "        let f%d = %s;\n" % (i, cur)
+            futs.append("f%d" % i)
+        if len(act) == 1:
+            i = act[0]
+            if is_try:
+                b += "        w%d = match f%d.await { Ok(v) => Ok(v), Err(e) => return Err(e) };\n" % (i, i)
+            else:
+                b += "        w%d = f%d.await;\n" % (i, i)
+        else:
+            if is_try:
+                b += "        let %s = match futures::try_join!(%s) { Ok(t) => t, Err(e) => return Err(e) };\n" % (tup("t%d" % i for i in act), ", ".join(futs))
+                for i in act:
+                    b += "        w%d = Ok(t%d);\n" % (i, i)
+            else:
+                b += "        let %s = futures::join!(%s);\n" % (tup("t%d" % i for i in act), ", ".join(futs))
+                for i in act:
+                    b += "        w%d = t%d;\n" % (i, i)
+    if is_try:
+        vals = ["w%d.unwrap()" % i for i in range(n)]
+        b += "        Ok(%s)\n    });\n" % (" ^ ".join("%s.rotate_left(%d)" % (vals[i], i) for i in range(n)) if handler else tup(vals))
+    else:
+        b += "        %s\n    });\n" % (" ^ ".join("w%d.rotate_left(%d)" % (i, i) for i in range(n)) if handler else tup("w%d" % i for i in range(n)))
+    b += "    assert!(r == exp, \"rand_diff(async): value differs from the staged reference\");\n"
+    if not is_spawn:
+        b += "    assert!(traces_same_multiset(), \"rand_diff(async): the set of evaluated expressions differs from the staged reference\");\n"
+    hn = "%s_rand_%s_%d" % (prop.lower(), mac, k)
+    return Harness(hn, harness_fn(hn, b), prog, note="random async program #%d" % k)
+
+
 def _rand_diff_harnesses(prop, tier):
     out = []
     per = 12 if tier == "quick" else 60
     for mac in ("join", "try_join", "join_spawn", "try_join_spawn"):
         for k in range(per):
             out.append(_rand_program_harness(prop, k, mac))
+    pera = 8 if tier == "quick" else 40
+    for mac in ("join_async", "try_join_async", "join_async_spawn", "try_join_async_spawn"):
+        for k in range(pera):
+            out.append(_rand_async_program_harness(prop, k, mac))
     return out
 
 
